@@ -438,8 +438,8 @@ struct fault_menu {
 static const struct fault_menu fault_menus[C_NCALLS] = {
   [C_PIPE] = { 2, { EMFILE, ENFILE } },
   [C_CLOSE] = { 2, { EINTR, EIO } },
-  [C_READ] = { 2, { EINTR, EIO } },
-  [C_WRITE] = { 2, { EINTR, EIO } },
+  [C_READ] = { 1, { EINTR } },
+  [C_WRITE] = { 1, { EINTR } },
   [C_POLL] = { 2, { EINTR, ENOMEM } },
   [C_FORK] = { 2, { EAGAIN, ENOMEM } },
   [C_WAITPID] = { 2, { EINTR, ECHILD } },
@@ -1388,9 +1388,11 @@ static int do_exec(const char *file, char *const argv[], int search)
   vk_log("    [child] exec(\"%.200s\")", file);
   if (!vk_cfg.real_exec) {
     /* emulated exec only ever stands for the helper itself */
-    if (strcmp(file, vk_helper_path) != 0) {
-      errno = ENOENT;
-      ev_done(e, -1, ENOENT);
+    struct stat sa, sb;
+    if (!strchr(file, '/') || stat(file, &sa) < 0 || stat(vk_helper_path, &sb) < 0 || sa.st_dev != sb.st_dev || sa.st_ino != sb.st_ino) {
+      int er = strchr(file, '/') && stat(file, &sa) < 0 ? errno : ENOENT;
+      errno = er;
+      ev_done(e, -1, er);
       return -1;
     }
     emulated_exec(file, argv);
@@ -1440,6 +1442,12 @@ pid_t vk_waitpid(pid_t pid, int *status, int options)
   vk_sched_point("waitpid");
   struct vk_event *e = ev_new(C_WAITPID, pid, options, 0);
   struct vk_child *c = pid > 0 ? vk_child_by_pid(pid) : NULL;
+  if (c && c->state == CH_REAPED && c->reaps == 0) {
+    /* reaped behind the library's back (injected ECHILD earlier): asking again is legitimate, the answer is ECHILD */
+    ev_done(e, -1, ECHILD);
+    errno = ECHILD;
+    return -1;
+  }
   if (!c || c->state == CH_REAPED) {
     vk_bad_waits++;
     vk_log("!!  waitpid(%d): not a live, unreaped child of this handle (not executed)", (int) pid);
@@ -1449,6 +1457,14 @@ pid_t vk_waitpid(pid_t pid, int *status, int options)
     return -1;
   }
   int f = fault(C_WAITPID);
+  if (f == ECHILD) {
+    /* ECHILD for one's own child means it was reaped behind the caller's back (SIGCHLD ignored / another waiter):
+     * make that true, otherwise the answer is one the kernel cannot give */
+    if (is_zombie(pid)) {
+      waitpid(pid, NULL, WNOHANG);
+      c->state = CH_REAPED;
+    } else f = EINTR;
+  }
   if (f) { e->injected = f; errno = f; ev_done(e, -1, f); return -1; }
   if (vk_cfg.passthru) {
     pid_t r = waitpid(pid, status, options);
@@ -1489,6 +1505,12 @@ int vk_kill(pid_t pid, int sig)
   vk_sched_point("kill");
   struct vk_event *e = ev_new(C_KILL, pid, sig, 0);
   struct vk_child *c = pid > 0 ? vk_child_by_pid(pid) : NULL;
+  if (c && c->state == CH_REAPED && c->reaps == 0) {
+    /* reaped behind the library's back by an injected ECHILD: the library cannot know */
+    ev_done(e, -1, ESRCH);
+    errno = ESRCH;
+    return -1;
+  }
   if (!c || c->state == CH_REAPED) {
     vk_bad_kills++;
     vk_log("!!  kill(%d,%d): not a live, unreaped child of this handle (not executed)", (int) pid, sig);
